@@ -119,6 +119,13 @@ CLAIMED = {
             "backends, cross-manager independence, and stress runs (switch interval 1e-6, sys.monitoring LINE yields) asserting only "
             "schedule-independent invariants.",
             "Stub backends (NumpyBackend subclasses named cupy/jax) stand in for uninstalled ones; GIL-atomic bytecodes not interleaved.", "DESIGN.md §2 C17"),
+    "C15": ("aliasing/mutation sanitizer: byte-level argument snapshots before/after every depth-0 call of wrapped public entry points; fault injection",
+            "~180 public functions and estimator methods are wrapped by identity re-binding; for every call made by the harness each "
+            "mutable argument (array bytes/dtype/shape and the base buffer of views, container identities, wrapper attributes) is "
+            "snapshotted before and compared after the call returns or raises. Workloads: hostile argument kinds (views, read-only, "
+            "lists/tuples/wrappers, masks, option lists, user inits), raising callbacks and backend failpoints (solve/svd/qr/dot/lstsq "
+            "raising on their n-th call), and the workloads of 12 other properties replayed under the sanitizer.",
+            "In-place parameters whitelisted by parameter (copy=False mode products, hals_nnls V, index_update).", "DESIGN.md §2 C15"),
 }
 
 PENDING_REASON = "check not built yet in this session; see DESIGN.md §2 for the planned monitor"
